@@ -432,4 +432,24 @@ PROPS = {
             rapid("c09", "TestPropModel", quick=(600, 8), thorough=(15000, 16), steps=40),
         ],
     },
+    "C14": {
+        "level": "exploration",
+        "rule": "race-detector build (-race). A trial runs 2-8 sessions, each in its own goroutine with its own raw connection to a real imapserver + "
+                "imapmemserver with 3 shared mailboxes preloaded with 3/12/40 messages, each executing a generated program of 3-10 commands (SELECT, "
+                "COPY/MOVE/UID COPY to another mailbox, FETCH with bodies, FETCH that sets \\Seen, STORE, UID STORE, EXPUNGE, APPEND, LIST with "
+                "STATUS, LIST (SUBSCRIBED), STATUS, CREATE/DELETE/RENAME/SUBSCRIBE of extra names, IDLE..DONE, NOOP, SEARCH, UID SEARCH, CLOSE) all "
+                "started at once, GOMAXPROCS drawn from {2,4,8,16}; plus three fixed scenarios repeated 40x (quick) / 600x (thorough): copies and "
+                "moves in opposite directions between two mailboxes, expunge/append/store during fetches, searches and idling, LIST during "
+                "create/rename/delete with STATUS during appends. Oracles: every command receives its tagged completion within the watchdog (the "
+                "report carries the trial and the goroutine dump of the server), no connection is dropped, no panic in the server log, and no race "
+                "detector report. Non-trivial: a trial in which two sessions copy/move between the same two mailboxes in opposite directions; "
+                "distinct by rendered trial.",
+        "assumptions": ["schedules are those the Go scheduler produces under varying GOMAXPROCS and workloads, not an enumeration: a deadlock or race that needs a schedule which was never produced is not seen (limit of the technique, see DESIGN.md)",
+                        "'completes' means within 20 s on in-memory connections (normal latency: well below a millisecond per command)",
+                        "failures depend on the schedule: the replay file is the trial plus the server goroutine dump; rapid cannot shrink them"],
+        "units": [
+            plain("c14", "TestReplayScenarios", race=True),
+            rapid("c14", "TestPropStress", quick=(150, 6), thorough=(4000, 14), race=True, shrinktime="15s"),
+        ],
+    },
 }
